@@ -138,7 +138,16 @@ theorem akaiWalk_afollows (words : Array Nat) (st : AkaiSt) (lst : List Nat) (su
       simp [e]
     have := astep_of words sub v hw hfree
     simpa [next, curDir] using this
-  case case10 => cases he; exact hf
+  case case10 =>
+    rename_i st lst sub size v hw curDir hc1 hc2 hc3 st1 next hlt hdir ls hadd
+    cases he
+    simp only
+    have hp : APathOK words ((sub :: lst).reverse) := by
+      have := apathOK_of_rev words lst sub [] hr (by simp [APathOK])
+      simpa [List.reverse_cons] using this
+    exact addLinks_afollows words _ _ ls hf hp hadd
+  case case11 => cases he
+  case case12 => cases he; exact hf
 
 /-- **AKAI SAT decoding is sound**: every non-end link of the decoded table is the step the SAT
 prescribes from that sector (a link word names the next sector; a directory-flag word continues
